@@ -61,7 +61,7 @@ class Layout:
 
 # ------------------------------------------------------------------ dest, src, count, key, len, iv
 
-def cipher6(fn, srcfile, lens, full_len, tier, uf, steps, maxn=48, aux_lens=None, timeout=300):
+def cipher6(fn, srcfile, lens, full_len, tier, uf, steps, maxn=48, aux_lens=None, timeout=300, exact=False):
     """two obligations per function: <fn>_shift (every shift of dest against src, key/iv private) and
     <fn>_aux (key / iv placed inside, or straddling an edge of, the output region or the source)"""
     q = tier == 'quick'
@@ -75,7 +75,9 @@ def cipher6(fn, srcfile, lens, full_len, tier, uf, steps, maxn=48, aux_lens=None
             inst.append(('s_%d_%s' % (n, sg(d)), '%d, %d, %d, %d, %d, 32' % (n, L.s0, L.s0 + d, L.keyp, L.ivp)))
     common = dict(harness=H + fn + '.c', defs=['MAXN=%d' % maxn, 'ASZ=%d' % L.asz, 'RSZ=%d' % (2 * maxn + 160)],
                   srcs=BELT_CORE + [BLOCK, B + srcfile] + (['src/crypto/belt/belt_wbl.c'] if 'SDE' in fn else []),
-                  stub_files=uf + WIPE, stubs=[uf[0].split('/')[-1][:-2], 'memWipe -> no-op'], unwind=maxn + 40, timeout=timeout, mem_gb=6, cbmc_extra=FS,
+                  stub_files=uf + WIPE, stubs=[uf[0].split('/')[-1][:-2], 'memWipe -> no-op'], unwind=maxn + 40, timeout=timeout, mem_gb=6,
+                  # stream modes keep a 'reserved' counter in the state: exact-size blob + field-sensitive state so that it constant-propagates
+                  blob_exact=exact, cbmc_extra=['--max-field-sensitivity-array-size', '512'] if exact else FS,
                   unwind_rules=[(r'^(belt)\w+Step\w*\.\d+$', maxn // 16 + 4), (r'^c11_cp\.\d+$', L.asz + 2)], funcs=[fn] + steps)
     obs = [Ob(name='c11_%s_shift' % fn, instances=inst,
               bound='count in %s; dest = src + delta, delta in {-(count+16), -count, -17, -16, -15, -1, 0, 1, 15, 16, 17, count, count+16}%s; key (32 octets) and iv outside both: %d concrete placements, each decided for ALL contents of the arena (data, key, iv)'
@@ -380,9 +382,9 @@ def obligations(tier):
     blk = [16, 32, 48]
     obs += cipher6('beltCBCEncr', 'belt_cbc.c', L([16, 17, 33, 48], cts), 17, tier, UF, ['beltCBCStart', 'beltCBCStepE', 'memMove'], aux_lens=L([33], None))
     obs += cipher6('beltCBCDecr', 'belt_cbc.c', L([17, 32, 48], cts), L(None, 17), tier, UF, ['beltCBCStart', 'beltCBCStepD', 'memMove'], aux_lens=L([32], None))
-    obs += cipher6('beltCFBEncr', 'belt_cfb.c', L([0, 1, 17, 33], strm), L(None, 17), tier, UFE, ['beltCFBStart', 'beltCFBStepE', 'memMove'], aux_lens=L([33], [17, 33]))
-    obs += cipher6('beltCFBDecr', 'belt_cfb.c', L([1, 16, 33], strm), L(None, 17), tier, UFE, ['beltCFBStart', 'beltCFBStepD', 'memMove'], aux_lens=L([33], [17, 33]))
-    obs += cipher6('beltCTR', 'belt_ctr.c', L([0, 1, 17, 33], strm), L(None, 17), tier, UFE, ['beltCTRStart', 'beltCTRStepE', 'memMove'], aux_lens=L([33], [17, 33]))
+    obs += cipher6('beltCFBEncr', 'belt_cfb.c', L([0, 1, 17, 33], strm), L(None, 17), tier, UFE, ['beltCFBStart', 'beltCFBStepE', 'memMove'], aux_lens=L([33], [17, 33]), exact=True)
+    obs += cipher6('beltCFBDecr', 'belt_cfb.c', L([1, 16, 33], strm), L(None, 17), tier, UFE, ['beltCFBStart', 'beltCFBStepD', 'memMove'], aux_lens=L([33], [17, 33]), exact=True)
+    obs += cipher6('beltCTR', 'belt_ctr.c', L([0, 1, 17, 33], strm), L(None, 17), tier, UFE, ['beltCTRStart', 'beltCTRStepE', 'memMove'], aux_lens=L([33], [17, 33]), exact=True)
     obs += cipher6('beltBDEEncr', 'belt_bde.c', L([16, 48], blk), L(None, 16), tier, UF, ['beltBDEStart', 'beltBDEStepE', 'memMove'], aux_lens=L([32], None))
     obs += cipher6('beltBDEDecr', 'belt_bde.c', L([32], blk), L(None, 16), tier, UF, ['beltBDEStart', 'beltBDEStepD', 'memMove'], aux_lens=L([32], None))
     obs += cipher6('beltSDEEncr', 'belt_sde.c', L([32], [32, 48]), None, tier, UFE, ['beltSDEStart', 'beltSDEStepE', 'beltWBLStepE', 'memMove'], aux_lens=L([32], None))
